@@ -57,6 +57,14 @@ def is_denied(ev):
 FORWARDERS = ("<T as core::convert::TryFrom<U>>::try_from", "<T as core::convert::Into<U>>::into",
               "<T as core::convert::TryInto<U>>::try_into", "<T as core::convert::From<T>>::from")
 STD_CRATES = ("core", "std", "alloc")
+# depth-2 summaries: a dependency function whose direct same-crate callee enters the panic machinery is
+# contract-panicking too, except for the pairs below, each confirmed by reading the dependency source
+DEP_GUARDED = {
+    ("heapless::vec::Vec::<T, N>::push", "heapless::vec::Vec::<T, N>::push_unchecked"):
+        "debug_assert!(!is_full()) in push_unchecked; push calls it only under `self.len < self.capacity()`",
+    ("heapless::vec::Vec::<T, N>::extend_from_slice", "heapless::vec::Vec::<T, N>::push_unchecked"):
+        "debug_assert!(!is_full()) in push_unchecked; extend_from_slice returns Err first when len + other.len() > capacity",
+}
 
 
 class Reach:
@@ -115,11 +123,22 @@ class Reach:
                             ti = self.I[t]
                             if ti["local"] or ti["krate"] in STD_CRATES:
                                 continue
-                            pc = ti.get("panic_calls") or []
+                            pc = list(ti.get("panic_calls") or [])
+                            via = None
+                            if not pc:
+                                # inlining bound 2: a direct callee in the same dependency crate
+                                for c, h in ti["out"]:
+                                    cc = self.I[c]
+                                    if h == "call" and cc["krate"] == ti["krate"] and cc.get("panic_calls") and (ti["def"], cc["def"]) not in DEP_GUARDED:
+                                        pc = list(cc["panic_calls"])
+                                        via = cc["def"]
+                                        break
                             if pc:
                                 e2 = dict(ev)
                                 e2["dep_api"] = ti["name"]
                                 e2["dep_panics"] = pc
+                                if via:
+                                    e2["dep_via"] = via
                                 out.append((inst, e2, "dep-api:" + ti["def"]))
                 elif e in ("rawderef", "asm", "thread_local"):
                     out.append((inst, ev, e))
